@@ -97,7 +97,9 @@ func genNoise(t *rapid.T, eagainBudget *int) []Noise {
 	for i, n := 0, rapid.IntRange(0, 4).Draw(t, "nnoise"); i < n; i++ {
 		var nz Noise
 		// (the property puts no bound on the number of unsolicited records; only failures are bounded, per run)
-		nz.Events = rapid.SampledFrom([]int{0, 0, 1, 2, 3, 10, 9, 11, 25, 60}).Draw(t, "events")
+		// (dozens at a busy moment, thousands when the backlog of a loaded machine is drained: any power of two is a
+		// plausible "enough" for somebody)
+		nz.Events = rapid.SampledFrom([]int{0, 0, 1, 2, 3, 10, 9, 11, 25, 60, 65, 64, 129, 257, 1025}).Draw(t, "events")
 		for j, k := 0, rapid.SampledFrom([]int{0, 0, 0, 1, 2, 5, 9}).Draw(t, "nfails"); j < k; j++ {
 			e := int(syscall.EINTR)
 			if *eagainBudget > 0 && rapid.IntRange(0, 9).Draw(t, "eagain") == 0 {
